@@ -31,6 +31,20 @@ Theorem C19_coinset_empty_noop : forall s, cs_list s = [] -> pop w64 s = (None, 
 Proof. exact (pop_shift_empty w64). Qed.
 Print Assumptions C19_coinset_empty_noop.
 
+(* PopCoin / ShiftCoin return nil exactly on the empty set, otherwise the last / the first coin,
+   and leave the others in order *)
+Theorem C19_pop_shift_return : forall s,
+  match fst (pop w64 s) with
+  | None => cs_list s = []
+  | Some c => cs_list s = cs_list (snd (pop w64 s)) ++ [c]
+  end
+  /\ match fst (shift w64 s) with
+     | None => cs_list s = []
+     | Some c => cs_list s = c :: cs_list (snd (shift w64 s))
+     end.
+Proof. exact (pop_shift_return w64). Qed.
+Print Assumptions C19_pop_shift_return.
+
 Theorem C19_tx_spends_exactly : forall version s,
   let t := tx_of_coins version s in
   map ti_outpoint (tx_in t) = map cid (cs_list s)
@@ -38,6 +52,16 @@ Theorem C19_tx_spends_exactly : forall version s,
   /\ tx_version t = version /\ tx_nout t = 0%nat /\ tx_locktime t = 0.
 Proof. exact tx_spends_exactly_model. Qed.
 Print Assumptions C19_tx_spends_exactly.
+
+(* the two clauses joined: the transaction built from the set that NewCoinSet(init) and any
+   push / pop / shift history lead to has one input per coin of the current contents and spends
+   exactly their outpoints, in order *)
+Theorem C19_tx_after_history : forall version init ops,
+  let t := tx_of_coins version (run_ops w64 ops (new_coinset w64 init)) in
+  map ti_outpoint (tx_in t) = map cid (fold_left deque_step ops init)
+  /\ length (tx_in t) = length (fold_left deque_step ops init).
+Proof. exact (tx_after_history w64). Qed.
+Print Assumptions C19_tx_after_history.
 
 (* MinIndex: the shortest non-empty qualifying prefix of the offered list; error exactly when no
    prefix of at most MaxInputs coins qualifies; never a panic *)
@@ -93,7 +117,9 @@ Proof. exact minprio_valid. Qed.
 Print Assumptions C19_minprio_valid.
 
 (* the recursion on the low-priority part terminates within the fuel min_priority_sel provides
-   (len + 1), and no return is a panic (no division by zero, no out-of-fuel) *)
+   (len + 1), and no return is a panic: not out-of-fuel, and not the integer division by numLow = 0,
+   which the model turns into Panic 8 (numLow starts at the source literal 1 and only grows; the
+   other division, by Num() of a set that was just pushed to, cannot be by zero) *)
 Theorem C19_minprio_fuel_no_panic : forall sort_by, sort_spec sort_by -> forall maxin mc minavg target coins,
   no_panic (min_priority_sel wx sort_by maxin mc minavg target coins).
 Proof. exact minprio_no_panic. Qed.
@@ -167,6 +193,22 @@ Theorem C19_selectors_no_overflow : forall sort_by, sort_spec sort_by -> sort_lo
 Proof. exact selectors_agree. Qed.
 Print Assumptions C19_selectors_no_overflow.
 
+(* the same transfer for the three simple selectors: about the int64 code, inside the bounds
+   (required average irrelevant: 0), shortest qualifying prefix and valid selections *)
+Theorem C19_simple_selectors_int64 : forall sort_by, sort_spec sort_by -> sort_local sort_by ->
+  forall maxin mc target coins, inb mc 0 target coins ->
+    prefix_sel maxin mc target coins (min_index w64 maxin mc target coins)
+    /\ (exists p, Permutation p coins /\ desc_by cval p
+                  /\ prefix_sel maxin mc target p (min_number w64 sort_by maxin mc target coins))
+    /\ (exists p, Permutation p coins /\ desc_by (va wx) p
+                  /\ prefix_sel maxin mc target p (max_value_age w64 sort_by maxin mc target coins))
+    /\ forall s, (min_index w64 maxin mc target coins = Ok s
+                  \/ min_number w64 sort_by maxin mc target coins = Ok s
+                  \/ max_value_age w64 sort_by maxin mc target coins = Ok s) ->
+                 valid_selection maxin mc target coins s.
+Proof. exact simple_selectors_w64. Qed.
+Print Assumptions C19_simple_selectors_int64.
+
 Theorem C19_minprio_valid_int64 : forall sort_by, sort_spec sort_by -> sort_local sort_by ->
   forall maxin mc minavg target coins br s,
   inb mc minavg target coins ->
@@ -183,6 +225,18 @@ Example C19_bounds_inhabited :
       [mkCoin 0 100000000 1; mkCoin 1 10000000 0; mkCoin 2 50000000 0; mkCoin 3 25000000 3; mkCoin 4 5000000 7].
 Proof. exact (conj isort_local inb_example). Qed.
 Print Assumptions C19_bounds_inhabited.
+
+(* TIE: the integer literals of coins.go the theorems above depend on, as extracted into
+   Gen/Xcoinset.v on every run (numLow := 1; the "+1" of the top-up bound numLow+(i-cutoffIndex)+1 <=
+   MaxInputs, i.e. repair ca4f52a; needValueAge > 0 and needValueAge%numLow != 0 of the round-up, repair
+   8d94bfc; ValueAge() == 0 of the extension loop; n := 0 of MinIndex).  The model reads them from the
+   extraction; changing one in the source breaks this theorem and every proof that uses them. *)
+Theorem C19_source_literals :
+  lit_numlow_start = 1 /\ lit_topup_slack = 1 /\ lit_need_pos = 0 /\ lit_rem_zero = 0
+  /\ lit_skip_va = 0 /\ lit_mi_start = 0
+  /\ length Gen.Xcoinset.lits_MinPriorityCoinSelector_CoinSelect = 13%nat.
+Proof. exact (conj lit_numlow_start_eq (conj lit_topup_slack_eq (conj lit_need_pos_eq (conj lit_rem_zero_eq (conj lit_skip_va_eq (conj lit_mi_start_eq eq_refl)))))). Qed.
+Print Assumptions C19_source_literals.
 
 (* the hypotheses are satisfiable: the insertion sort used by the run driver meets sort_spec *)
 Example C19_sort_spec_inhabited : sort_spec isort.
